@@ -2635,7 +2635,9 @@ class CondTr(Generic[X, R], Trace[X, R]):
         return merged
 
     def get_args(self) -> Any:
-        return (self.check, *self.trs[0].get_args())
+        # The standard (args, kwargs) format: the condition is Cond's first argument.
+        args, kwargs = self.trs[0].get_args()
+        return ((self.check, *args), kwargs)
 
     def get_retval(self) -> R:
         return jnp.where(self.check, *map(get_retval, self.trs))
